@@ -1582,6 +1582,22 @@ impl<'a> Gen<'a> {
                 label: None,
                 stmts: vec![Stmt::End],
             });
+        } else if self.cfg.on && self.rng.pct(15) && self.labels > 0 {
+            // the program's last statement is an ON..GOTO / ON..GOSUB whose selector is out of range:
+            // execution falls off the end of the program
+            let t = Target::L(self.rng.usize(self.labels));
+            let sel = *self.rng.pick(&[0i32, 2, 5]);
+            let st = if self.rng.pct(70) || !self.cfg.gosub {
+                Stmt::OnGoto(Expr::int(sel), vec![t])
+            } else {
+                Stmt::OnGosub(Expr::int(sel), vec![t])
+            };
+            let mut stmts = vec![];
+            if self.rng.pct(40) {
+                stmts.push(self.simple());
+            }
+            stmts.push(st);
+            main.push(Draft { label: None, stmts });
         } else if self.rng.pct(25) {
             // the program's last statement is an END inside an IF branch (taken or not)
             let cond = self.cond(1);
